@@ -98,8 +98,8 @@ var checks = map[string]check{
 	"C01": {
 		ID: "C01", Pkg: "c01", NeedBin: true, MaxPar: 12,
 		Jobs: []job{
-			{Run: "^TestCompiles$", Quick: 80, QShards: 8, Thor: 2500, TShards: 14},
-			{Run: "^TestCompilesNames$", Quick: 60, QShards: 4, Thor: 1500, TShards: 14},
+			{Run: "^TestCompiles$", Quick: 80, QShards: 8, Thor: 1200, TShards: 14},
+			{Run: "^TestCompilesNames$", Quick: 60, QShards: 4, Thor: 800, TShards: 14},
 		},
 		Rule:   "IDL models (1-3 files, every definition kind, typedef chains, cross-include references, negative/implicit/hex ids, defaults and constants in every spelling, annotations, files without a go namespace) x go/fastgo x drawn option configurations (none, one option, 2-8 options in bare/=true/=false form, naming styles, slim/raw_struct templates, package_prefix) x -r on/off; thriftgo exit 0 => every written .go file parses and all generated packages type-check together (go/types, runtime libraries from source); non-trivial = compiled program with a cross-file reference or a non-default option, distinct by IDL text and command line",
 		Assume: []string{"options that need resources absent offline are not drawn: code_ref*, exp_code_ref, keep_code_ref_name (idl-ref.yaml + foreign package), thrift_streaming/streamx (kitex is not cached), use_option (option IDL), skip_go_gen (writes nothing), apache_adaptor", "go namespaces are layered so that includes cannot form Go import cycles; files without a go namespace have unique base names; a throws entry never has id 0 (the id of `success`)", "names are unique program-wide (collision-renaming stress is not generated yet)", "a valid program that thriftgo rejects is counted (status:rejected_valid), not reported: C04 decides diagnostics"},
